@@ -1142,7 +1142,7 @@ MANIFEST = {
             "validated before the first store (so a rejected assignment leaves the object unchanged), the documented shape agrees with the validator "
             "configuration, each passed constraint is consulted on every accepting path of the validator (path enumeration with the call site's "
             "literal arguments), None results never reach arithmetic, constructors go through the setters, and stored arrays are fresh copies. "
-            "Value-level read-back equality is not decided. Also decided: documented relational constraints are enforced, every validator has a type gate, validators return fresh arrays. Round 3: membership-validated setters store the value they tested (S10), validated values are stored verbatim in the property's own attribute (S11), the translation of conversion failures into the input error is total (S12), the field_func probe has at least two rows and its shape is what the output is compared with (S13); None-flow understands conditional expressions and short-circuit guards and looks at if/for heads. Rounds 4-5: S14 scalar gates on numbers.Number, S15 raw values reach NumPy only inside a translating try, S16 elementwise sign tests, S17 guards see the flattened source list, S18 pose paths forced to rank 2, S19 no attribute stored as a view of another.",
+            "Value-level read-back equality is not decided. Also decided: documented relational constraints are enforced, every validator has a type gate, validators return fresh arrays. Round 3: membership-validated setters store the value they tested (S10), validated values are stored verbatim in the property's own attribute (S11), the translation of conversion failures into the input error is total (S12), the field_func probe has at least two rows and its shape is what the output is compared with (S13); None-flow understands conditional expressions and short-circuit guards and looks at if/for heads. Rounds 4-5: S14 scalar gates on numbers.Number, S15 raw values reach NumPy only inside a translating try, S16 elementwise sign tests, S17 guards see the flattened source list, S18 pose paths forced to rank 2, S19 no attribute stored as a view of another. Rounds 6-7: same-named scalar attributes hand the same constraints to the validator (S21), rank before size (S20), exact guards (S22); None-flow uses the effective allow_None of every validator call, defaults included (S5).",
     "design_ref": "DESIGN.md §3 C17",
     "note": "Trusted: python ast; validators are recognised by name (check_*/validate_*) in magpylib._src.input_checks; triaged lazy style validation.",
     "technique": "static analysis: taint-style dataflow on a structured CFG, path enumeration with partial evaluation, table cross-check, alias analysis",
